@@ -97,6 +97,31 @@ def run(ctx: Context) -> None:
     rep.assume("Origin equality covers scheme, host and port (C19.R2)")
 
 
+def connect_target_eval(ctx: Context, tf) -> tuple[bool, str, ast.AST | None]:
+    """The CONNECT target decided by evaluation: with distinct hosts / ports for the remote origin, the proxy and the caller's URL, the value bound to `target` is
+    `<remote host>:<remote port>` (how it is formatted - helper, conditional bracketing of IPv6 literals - is not judged here)."""
+    from ..norm import run_to
+
+    tg = [x for x in own_nodes(tf.node) if isinstance(x, ast.Assign) and norm(x.targets[0]) == "target"]
+    if not tg:
+        return False, "CONNECT target <- ? (no `target` binding located)", None
+    outs = []
+    for st in tg:
+        env: dict = {}
+        for x in own_nodes(tf.node):
+            if isinstance(x, ast.Attribute) and x.attr in ("host", "port", "scheme"):
+                base = norm(x.value)
+                who = "remote" if "remote" in base else ("proxy" if "proxy" in base else "caller")
+                env[norm(x)] = {"host": {"remote": b"origin.example", "proxy": b"proxy.example", "caller": b"caller.example"}[who],
+                                "port": {"remote": 8443, "proxy": 3128, "caller": 9999}[who], "scheme": b"https"}[x.attr]
+        if run_to(list(tf.node.body), st, env) != "hit":
+            outs.append(UNKNOWN)
+            continue
+        outs.append(peval(st.value, env))
+    ok = all(v == b"origin.example:8443" for v in outs)
+    return ok, f"CONNECT target <- {ast.unparse(tg[0].value)[:90]} = {outs[0]!r} for remote origin origin.example:8443" + ("" if ok else " - must name the remote origin's host and port"), tg[0]
+
+
 def _ctor_calls(f: FuncInfo, names: set[str]) -> list[ast.Call]:
     return sorted([c for c in own_nodes(f.node) if isinstance(c, ast.Call) and (chain(c.func) or [""])[-1] in names], key=lambda c: c.lineno)
 
@@ -138,10 +163,9 @@ def _r2(ctx: Context, tree: str, N: Names) -> None:
         rep.ob("C10.R2", fkey(tree, sf, "socks-negotiation(host,port)"), ok, where(sf, c), f"SOCKS negotiation host={kw.get('host')} port={kw.get('port')}")
     # tunnel
     tf = N.func("http_proxy", "AsyncTunnelHTTPConnection.handle_async_request")
-    tg = [x for x in own_nodes(tf.node) if isinstance(x, ast.Assign) and norm(x.targets[0]) == "target"]
-    ok = bool(tg) and norm(tg[0].value) == "b'%b:%d'%(self._remote_origin.host,self._remote_origin.port)"
+    ok, detail, node = connect_target_eval(ctx, tf)
     n += 1
-    rep.ob("C10.R2", fkey(tree, tf, "connect-target"), ok, where(tf, tg[0] if tg else None), f"CONNECT target <- {ast.unparse(tg[0].value) if tg else '?'}")
+    rep.ob("C10.R2", fkey(tree, tf, "connect-target"), ok, where(tf, node), detail)
     for c in _ctor_calls(tf, {t("AsyncHTTP11Connection"), t("AsyncHTTP2Connection")}):
         n += 1
         o = [norm(k.value) for k in c.keywords if k.arg == "origin"]
@@ -278,6 +302,10 @@ def _tls(ctx: Context, tree: str, N: Names) -> None:
             nsel += 1
             conds = [(test, pol) for test, pol in guards_of(c) if "http2" in norm(test) or "http1" in norm(test)]
             expanded = [(alt, pol) for test, pol in conds for alt in ctx.prov.expand(test, f, c)]
+            # a selection variable bound once per branch (TLS hop: ALPN result consulted; plain-text hop: nothing was negotiated): each binding is judged on its own
+            # rows - the plain-text one, which never looks at an SSL object, on the rows without one
+            per_branch = [[(alt, pol) for alt in ctx.prov.expand(test, f, c)] for test, pol in conds]
+            multi = [g for g in per_branch if len(g) > 1]
             ssl_terms = sorted({norm(x) for alt, _ in expanded for x in ast.walk(alt)
                                 if isinstance(x, ast.Call) and isinstance(x.func, ast.Attribute) and x.func.attr == "get_extra_info" and [norm(a) for a in x.args] == ["'ssl_object'"]})
             rows_bad = []
@@ -291,6 +319,17 @@ def _tls(ctx: Context, tree: str, N: Names) -> None:
                                 env[st_] = Sym("SSLObject") if ssl_present else None
                                 env[st_ + ".selected_alpn_protocol()"] = alpn
                             want = (ssl_present and alpn == "h2") or (h2 and not h1)
+                            if len(multi) == 1 and len(per_branch) == 1:
+                                for alt, pol in multi[0]:
+                                    uses_ssl = any(st_ in norm(alt) for st_ in ssl_terms) or "ssl_object" in norm(alt)
+                                    if not uses_ssl and ssl_present:
+                                        continue        # this binding belongs to the hop without TLS
+                                    v = peval(alt, env)
+                                    if v is UNKNOWN:
+                                        alts_ok = False
+                                    elif (bool(v) == pol) != want:
+                                        rows_bad.append(f"tls={ssl_present},alpn={alpn},http2={h2},http1={h1}: chosen={bool(v) == pol} want={want} (binding `{ast.unparse(alt)[:50]}`)")
+                                continue
                             got: object = True
                             for alt, pol in expanded:
                                 v = peval(alt, env)
